@@ -79,6 +79,15 @@ def strategy_(draw, tier):
             total = rec["plen"]
             rec["ps"] = min(draw(st.integers(0, 2)), total - 1)
             rec["pe"] = max(rec["ps"] + 1, min(rec["pe"], total))
+        if i > 0 and draw(st.integers(0, 5)) == 0:
+            # the neighbour of the previous record: same walk, same start, another end (or same end, another start)
+            prev = prev_rec
+            rec = dict(prev, name="r%d" % i)
+            if draw(st.booleans()) and prev["pe"] - prev["ps"] > 1:
+                rec["pe"] = draw(st.integers(prev["ps"] + 1, prev["pe"] - 1))
+            elif prev["pe"] - prev["ps"] > 1:
+                rec["ps"] = draw(st.integers(prev["ps"] + 1, prev["pe"] - 1))
+        prev_rec = rec
         if draw(st.integers(0, 5)) == 0:
             rec["strand"] = "-"  # minigraph writes '-' strand records; sort keys are path coordinates, the strand is irrelevant
         lines.append(gen_gaf.record_line(rec))
